@@ -299,6 +299,13 @@ def check_commute(case, ctx):
     if near_edge:
         ctx.event('peak_near_edge')
     ctx.mark(near_edge or mask is not None or ny != nx)
+    err = None
+    if gfit and case.get('error') and rel == 'garbage':
+        # the Gaussian fitters take an error map: its values under the mask
+        # must be ignored as well
+        err = rng.uniform(0.5, 2.0, (ny, nx))
+        kw['error'] = err
+        ctx.event('garbage_in_error_too')
     with warnings.catch_warnings():
         warnings.simplefilter('ignore')
         base = f(img.copy(), mask=mask, **kw)
@@ -322,12 +329,18 @@ def check_commute(case, ctx):
                 return
             g = img.copy()
             g[mask] = rng.choice([np.nan, 1e9, -1e9, np.inf], size=int(mask.sum()))
+            if err is not None:
+                eg = err.copy()
+                eg[mask] = rng.choice([1e6, 1e-6, 37.0], size=int(mask.sum()))
+                kw = dict(kw, error=eg)
             got = f(g, mask=mask, **kw)
             exp = tuple(base)
     for a, b, ax in ((got[0], exp[0], 'x'), (got[1], exp[1], 'y')):
         if math.isnan(a) and math.isnan(b):
             continue
-        if not abs(a - b) <= tol * max(1.0, case['noise'] * 1e3 if name in ('1dg', '2dg') else 1.0):
+        # iterative least-squares fits of noisy data agree to the optimiser's
+        # convergence tolerance (not scale-invariant), exact data to 2e-5
+        if not abs(a - b) <= tol * max(1.0, case['noise'] * 1e4 if name in ('1dg', '2dg') else 1.0):
             raise Violation('commutation',
                             f'centroid_{name} under {rel}: got {tuple(got)} '
                             f'expected {exp} (base {tuple(base)}, shape '
@@ -346,8 +359,16 @@ def commute_cases(draw):
     else:
         cx, cy = draw(st.floats(1.5, nx - 2.5)), draw(st.floats(1.5, ny - 2.5))
     func = draw(st.sampled_from(['com', 'quadratic', 'quadratic', '1dg', '2dg']))
+    sig = draw(st.floats(1.0, 2.5))
+    if func in ('1dg', '2dg'):
+        # Gaussian fits are only defined for well-contained sources
+        # (>= 3 sigma inside): construct such cases instead of rejecting
+        ny, nx = max(ny, int(6 * sig) + 6), max(nx, int(6 * sig) + 5)
+        m = 3 * sig + 0.01
+        cx = min(max(cx, m), nx - 1 - m)
+        cy = min(max(cy, m), ny - 1 - m)
     return {'shape': [ny, nx], 'centre': [cx, cy],
-            'comps': [[draw(st.floats(1.0, 2.5)), draw(st.floats(0.6, 1.0)),
+            'comps': [[sig, draw(st.floats(0.6, 1.0)),
                        draw(st.floats(0, 3.1)), draw(st.floats(30, 100))]],
             'pedestal': draw(st.sampled_from([0.0, 1.0])),
             'noise': draw(st.sampled_from([0.0, 0.01])),
@@ -357,7 +378,8 @@ def commute_cases(draw):
                                          min_size=0, max_size=3)),
             'relation': draw(st.sampled_from(['flipx', 'flipy', 'transpose',
                                               'scale', 'garbage'])),
-            'factor': draw(st.sampled_from([2.0, 0.5, 1000.0, 1e-3]))}
+            'factor': draw(st.sampled_from([2.0, 0.5, 1000.0, 1e-3])),
+            'error': draw(st.booleans())}
 
 
 # --------------------------------------------------------------------------
